@@ -95,6 +95,122 @@ CHECKS["C09"] = dict(
     design_ref="DESIGN.md section 2, C09",
 )
 
+CHECKS["C02"] = dict(
+    technique="TLA+ specs Access/MSP/SharingMC (policies, span programmes, perfect privacy by counting) model-checked by TLC + TLC trace validation of real sharing-scheme calls on a toy prime field",
+    text="SharingMC lets TLC prove, for every small policy of the simple constructions over Z_5 / Z_7, that the span programme accepts exactly the qualified sets, that every unqualified set's shares are "
+         "consistent with every secret (counting), and dealing / reconstruction / additive conversion / linearity. The driver runs the real access structures (threshold, unanimity, CNF, hierarchical, gate trees) "
+         "and schemes (KW/MSP, Shamir, additive, ISN, Tassa, Feldman, Pedersen) on a toy prime field for every enumerated policy x identifier assignment x subset x secret x dealer column; SharingTrace takes the "
+         "code's own MSP from the log and re-decides every line: IsQualified = Accepts = CanReconstruct = spans e0 (certificates checked by TLC), reconstruction returns the dealt secret, unqualified sets have a "
+         "privacy witness, share Add/ScalarMul and ConvertShareToAdditive are exact.",
+    note="Trusted: TLC, the spec, the toy field. Privacy is decided structurally (kernel witness) and by counting on the model; the distribution of the library's randomness is not examined. ISN is exercised with identifiers 1..64 only.",
+    design_ref="DESIGN.md section 2, C02",
+)
+
+CHECKS["C05"] = dict(
+    technique="TLA+ spec VSS (verification equation in the exponent) model-checked by TLC + TLC trace validation of real Feldman / Pedersen verification calls on a toy group",
+    text="VSSMC lets TLC check at every dealt state of every small policy that a Feldman / Pedersen share verifies iff it is the dealer's share of the claimed holder (all values of all coordinates, wrong lengths, "
+         "other identities, outsiders), that a changed verification-vector entry breaks exactly the holders depending on it, that wrong vector lengths never verify and that combined dealings verify the sum. The driver "
+         "runs the real Deal / Verify / ReconstructAndVerify / ReconstructInTheExponent / VerificationVector.Op / NewVerificationVector / NewBaseShard on the toy group (elements logged as discrete logs) for every "
+         "enumerated policy, holder, coordinate and delta; VSSTrace re-decides every accept / reject from lambda_k = M[k].V mod q on the code's own MSP.",
+    note="Trusted: TLC, the spec, the toy group. Pedersen binding is computational: with the second generator's logarithm known the spec predicts (and the code shows) the (d, -d/eta) shift verifies; not reported.",
+    design_ref="DESIGN.md section 2, C05",
+)
+
+CHECKS["C08"] = dict(
+    technique="TLA+ specs Sigma / SigmaOr / SigmaNI (three-move protocols, OR composition, compilers over symbolic hashes) model-checked by TLC + TLC trace validation of real prover / verifier / extractor / simulator calls",
+    text="TLC model-checks completeness, special soundness (extraction), simulation, AND (product map), OR (XOR of sub-challenges, exactly one witness) and the acceptance predicate of the Fiat-Shamir, Fischlin, "
+         "randomised Fischlin and interactive zk compilers on all (w, r, e, e') over small Z_q. The driver runs the real pkg/proofs code (Schnorr, batch Schnorr, Okamoto, elcomop, elog; sigand / sigor; all compilers) "
+         "on the toy group with exact integers and on k256 / P-256 / BLS12-381 G1 with tokens: honest, altered and simulated conversations, every compiled proof verified under the same context and under every "
+         "single-coordinate context difference (session, transcript state, prover id, statement) and after every class of single structural alteration of its bytes. SigmaTrace recomputes z = r + e w, the verification "
+         "equation, extraction, simulation, the XOR relation and the per-compiler acceptance predicate for every logged call.",
+    note="Trusted: TLC, the specs, the toy group; hashes are injective symbols (a 2^-8 Fischlin target hit by an altered repetition would show as a sporadic mismatch). Paillier-based proofs (LP, LPDL, range, n-th root, modulus), ring-Pedersen and CGGMP21 proofs are not driven.",
+    design_ref="DESIGN.md section 2, C08",
+)
+
+CHECKS["C11"] = dict(
+    technique="PlusCal/TLA+ spec Router (one label per critical section of routerCore) and Echo model-checked by TLC + TLC-generated schedules replayed on real Routers through verif gates + TLC trace validation of gated, free (-race) and protocol-runner executions",
+    text="Router.tla models routerCore at the grain of its mutex (deposit, duplicate, conflict, overflow, enter, scan, park, wake, cleanup, cancel, close); TLC checks exact routing per correlation id, no cross-talk, "
+         "blame of the conflicting sender, buffer accounting, no lost wake-up (and its liveness form in the thorough tier; the unbuffered-notify mutant of the spec must fail) and Echo.tla's agreement under Byzantine "
+         "senders. TLC-generated behaviours (seeded simulation and race-forcing scenarios) are replayed on real network.Router objects with the harness as scheduler (gates at every lock acquisition), Byzantine echo "
+         "behaviours (exhaustive for n=3, n=4 one Byzantine) on real echo participants, and free randomized executions and session / Gennaro / Canetti runners over an adversarial Delivery (reordering, duplication) "
+         "run with hooks in trace mode under the race detector; RouterTrace / EchoTrace re-decide every recorded critical section with Router's own actions and check every invariant after every event; runner outputs must agree.",
+    note="Trusted: TLC, Router.tla / Echo.tla, the add-only hook lines in pkg/network/router.go. Scheduling below a critical section of c.mu is covered by the race detector only; SHA3-256 is an injective symbol.",
+    design_ref="DESIGN.md section 2, C11",
+)
+
+CHECKS["C12"] = dict(
+    technique="TLA+ spec Cbor (Choose / Encode / Mutate / Decode / Reencode state machine) model-checked by TLC, its behaviours replayed on the real serde + TLC trace validation of round-trip / mutation campaigns over every serialisable type",
+    text="CborMC checks on every value of the model schemas that decode(encode(v)) = v, key order is canonical, every malformed container (duplicate / unknown key, indefinite length, trailing bytes, wrong tag) is "
+         "rejected and whatever is accepted has a normal form; every (schema, value, mutation) behaviour is replayed on the real pkg/base/serde. The driver captures real values of the library's serialisable types "
+         "(keys, shards, shares, signatures, proofs, ciphertexts, commitments, access structures, protocol messages of runs on k256 and the toy group), round-trips them and applies structure mutations, field swaps, "
+         "truncations and bit flips to their encodings, and crafts encodings violating one constructor rule each. CborTrace re-decides every line: deterministic encoding, equal after round trip, malformed => "
+         "rejected, accepted => the constructor's validity predicate and a re-encoding fixed point, never a panic; per-type summary lines check the coverage of (class, position) sites.",
+    note="Trusted: TLC, the Cbor spec (cross-checked against the real serde by replay), the CBOR walker of the driver. Arbitrary byte strings beyond the listed mutation classes are not claimed. Known findings (decoders that "
+         "panic / do not validate) are listed in known_findings.txt by decoding site.",
+    design_ref="DESIGN.md section 2, C12",
+)
+
+CHECKS["C14"] = dict(
+    technique="TLA+ spec GroupProg (register programmes over an abstract cyclic group = integers) model-checked by TLC, every generated transition replayed on all curve types + TLC trace validation of the replayed registers",
+    text="GroupProg explores register programmes (Add, Sub, Double, Neg, ScalarMul with 0 / 1 / order-1 / order / ..., ScalarBaseMul, MultiScalarMul of several lengths, Equal, IsOpIdentity) over discrete logarithms "
+         "as unreduced integers, checks the algebraic laws on every reachable register file and prints every transition with its predicted result; a second family generates pairing programmes e([a]G1,[b]G2) = "
+         "e(G1,G2)^(ab). The driver replays every step on k256, P-256, edwards25519 (+ prime subgroup), curve25519 (+ prime subgroup), Pallas, Vesta, BLS12-381 G1 / G2 / GT, projecting each real register to its integer "
+         "through a reference table [k]G cross-checked against independent math/big models, and runs small-window scalar / base field operations; GroupProgTrace demands exact equality of every register after every step.",
+    note="Device W: decided for operands [v]G with |v| <= 4096 and the listed scalar constants; 'every point / scalar' beyond that window is not decided. No second model for curve25519, G2 and GT in the sandbox (Add-chain vs "
+         "Sub-chain vs double-and-add vs ScalarMul cross-checks only). purego build only.",
+    design_ref="DESIGN.md section 2, C14",
+)
+
+CHECKS["C15"] = dict(
+    technique="TLA+ spec SigVerify (Schnorr KeyGen/Sign/Alter/Verify state machine with lazily sampled oracle; decision tables of ECDSA / BIP-340 / Mina / Schnorr / BLS cross-checked against exact small models) model-checked by TLC + TLC trace validation of real sign / verify calls",
+    text="TLC explores generic Schnorr exactly over Z_q for all keys, nonces, oracle values and single-component alterations, and cross-checks every row of the accept/reject tables of ECDSA (incl. the n-s / recovery-bit "
+         "equivalence, strict low-S), BIP-340, Mina, plain Schnorr and BLS (aggregate, batch, PoP with missing / foreign / identity / out-of-subgroup contributors) against an exact small model of each verification "
+         "equation. The driver runs the real code: generic Schnorr on the toy group for all keys x nonces x alterations through a scripted reader, and the production schemes over the full alteration product with "
+         "independent oracles evaluated into booleans (math/big ECDSA and BIP-340, crypto/ecdsa, crypto/ed25519, known-secret BLS identity, published vectors), recovery and normalisation. SigVerifyTrace re-decides every call.",
+    note="Trusted: TLC, the SigVerify tables, the harness's math/big reference code, Go's standard crypto. Production curves are judged by alteration class over sampled keys / messages; BLS has no second pairing implementation in the sandbox.",
+    design_ref="DESIGN.md section 2, C15",
+)
+
+CHECKS["C16"] = dict(
+    technique="TLA+ spec HomEnc (register machine over textbook Paillier / ElGamal with ghost plaintexts and nonces) model-checked by TLC + TLC trace validation of real Paillier / ElGamal calls on toy keys",
+    text="HomEncMC explores every programme of <= 3 operations over 2 registers (toy Paillier N = 35 with every (m, r), toy ElGamal of order 7 with every key / message / nonce): each register is the textbook encryption "
+         "of its ghost plaintext under its ghost nonce; decryption and opening invert. The driver (test-mode binary, size floor off) runs the real pkg/encryption/paillier on toy keys 5*7, 11*13, 19*23, 83*107 through "
+         "the public-key AND secret-key (CRT) paths - encrypt, decrypt, open, add, scale, shift, re-randomise - and pkg/encryption/elgamal on the toy group; the plain binary must refuse the toy keys. HomEncTrace "
+         "recomputes every ciphertext as (1+N)^m r^N mod N^2 and re-decides every decryption / opening / homomorphic step exactly.",
+    note="Trusted: TLC, HomEncMath. Toy moduli exercise the generic Paillier / znstar / modular code; multi-limb arithmetic is C17's window. ElGamal over curve groups is not reached.",
+    design_ref="DESIGN.md section 2, C16",
+)
+
+CHECKS["C17"] = dict(
+    technique="TLA+ spec SmallNum (declarative number theory: division, gcd / Bezout, Jacobi, CRT, modular roots, two's complement) cross-checked by TLC + TLC trace validation of real numct / num / modular / crt / znstar / nt calls on exhaustive small boxes",
+    text="SmallNumMC cross-checks the definitions against each other (Bezout, gcd*lcm, Euler's criterion, Jacobi multiplicativity / reciprocity, CRT uniqueness, uniqueness of quotient and remainder). The driver runs the "
+         "real Nat / Int / Rat / Uint / Modulus / CRT / znstar operations, nt.Jacobi and the prime / modulus generators on exhaustive small operand boxes (signs, zero, even / odd, prime / composite moduli, operands "
+         ">= modulus, announced capacities below / at / above the true length, every aliasing mode) and on a k*2^64 + s window; SmallNumTrace re-decides every logged call, including 'non-invertible exactly when' "
+         "and 'root returned exactly for residues modulo an odd prime'.",
+    note="Device W: |v| < 2^15 and k*2^64+s; carry chains of genuinely multi-limb operands (saferith) are not decided. Primes above 2^31 are judged through logged math/big ProbablyPrime booleans.",
+    design_ref="DESIGN.md section 2, C17",
+)
+
+CHECKS["C18"] = dict(
+    technique="TLA+ spec Commit (Pedersen / ElGamal-based commitment algebra, equivocation, homomorphic programmes) model-checked by TLC + TLC trace validation of real pkg/commitments calls",
+    text="CommitMC checks on every value of small fields that the promised opening opens, that (m2, w2) opens iff w2 is the Equivocate witness, that every single-component change fails up to exact 1/q guards, that "
+         "the ElGamal-based commitment opens to exactly one pair, over all programmes of homomorphic steps (which it prints). The driver runs the real Pedersen and indcpacom-over-ElGamal code on the toy group "
+         "(exhaustive single-commitment cases and the printed programmes), hashcom / Pedersen / ElGamal-based commitments over secp256k1 with tokens, ring-Pedersen (intcom) over a toy safe-prime modulus, and "
+         "commitment keys derived from hagrid transcripts (equal for equal transcripts, different otherwise); CommitTrace re-decides every line.",
+    note="Trusted: TLC, CommitDefs, the toy group, token interning. indcpacom over Paillier is not driven (same generic wrapper as over ElGamal).",
+    design_ref="DESIGN.md section 2, C18",
+)
+
+CHECKS["C19"] = dict(
+    technique="TLA+ spec Transcript (hagrid framing as an injective encoding of operation histories; clones; extraction streams) model-checked by TLC, every printed programme and critical pair replayed on real transcripts + TLC trace validation",
+    text="TranscriptMC checks on every history of the configured scopes that the framing is injective (by an ambiguous parser), extraction streams are separate and extension-free and clones are independent, and prints "
+         "every programme and every critical pair (histories that would collide if one framing element were dropped). The driver replays them on real hagrid transcripts, reads the absorbed bytes from the sponge state "
+         "and logs outputs / states as tokens; TranscriptTrace demands absorbed bytes = Frame(op) byte for byte and tokens <-> (name, stream) one to one. Hash-to-curve (weaker, input/output only): determinism, DST "
+         "dependence, prime-order membership by an independent double-and-add, and the shipped RFC 9380 vectors as H2CTrace cases.",
+    note="cSHAKE256 is an injective symbol of (customisation, absorbed stream). Hash-to-curve's map is not modelled (input/output only). Known finding: curve25519 / edwards25519 default DST names the NU suite while RO is implemented.",
+    design_ref="DESIGN.md section 2, C19",
+)
+
 NOT_APPLICABLE = {
     "C13": "byte-level encode/decode fidelity of 256-381-bit curve elements: no state/transition structure and operands TLC cannot represent; a TLA+ specification would decide nothing (DESIGN.md section 3)",
 }
